@@ -323,6 +323,13 @@ def builtin_call(ex, ev: Eval, node, fname):
         if tn in table:
             return V(BOOL, z3.BoolVal(bool(table[tn])))
         raise Unsupported(f"isinstance(_, {tn})")
+    if fname == "set" and len(a) == 1:
+        v = ev.expr(a[0])
+        if isinstance(v.t, TSet):
+            return v
+        if isinstance(v.t, TDict):
+            return mk_set(TSet(v.t.k), dict_dom(v), dict_card(v))
+        raise Unsupported(f"set({v.t})")
     if fname == "list" and len(a) == 1:
         x = a[0]
         if isinstance(x, ast.Call) and isinstance(x.func, ast.Name) and x.func.id == "range" and len(x.args) == 1:
@@ -422,7 +429,7 @@ def method_call(ex, ev: Eval, node, recv_node, meth):
         if meth == "append" and len(a) == 1:
             if ev.guard:
                 raise Unsupported("effect under short-circuit")
-            v = coerce_to(ev.expr(a[0]), recv.t.elem)
+            v = coerce_to(ex.expr_typed(ev, a[0], recv.t.elem), recv.t.elem)
             _store_back(ex, ev, recv_node, mk_list(recv.t, ln + 1, z3.Store(arr, ln, v.z)))
             return V(NONE, z3.BoolVal(True))
         if meth == "pop" and len(a) == 0:
@@ -451,6 +458,8 @@ def method_call(ex, ev: Eval, node, recv_node, meth):
                 d = coerce_to(ev.expr(a[1]), recv.t.v)
                 return V(recv.t.v, z3.If(has, val, d.z))
             return V(TOpt(recv.t.v), z3.If(has, opt_some(TOpt(recv.t.v), val).z, opt_none(TOpt(recv.t.v)).z))
+        if meth == "keys" and not a:
+            return mk_set(TSet(recv.t.k), dict_dom(recv), dict_card(recv))
         if meth == "values" and not a:
             # list(d.values()): a list whose elements are exactly the stored values (order arbitrary, A6)
             return dict_values_list(ex, ev, recv)
